@@ -40,6 +40,63 @@ def ref_find(es, T, name, desc):
     return None
 
 
+def ref_page(es, start, k, desc):
+    """The page of k entries from position start (1-based) in the listing direction and the entry after it:
+    [count, first position, next cursor T, nm]; next = -1 0: none, -2 0: an unparsable entry."""
+    n = len(es)
+    pos = list(range(start, 0, -1)) if desc else list(range(start, n + 1))
+    items = pos[:k]
+    if len(pos) > k:
+        e = es[pos[k] - 1]
+        nxt = [e[0], e[1]] if valid(e) else [-2, 0]
+    else:
+        nxt = [-1, 0]
+    return [len(items), items[0] if items else 0] + nxt
+
+
+def ref_bbs_page(es, cur, k, desc):
+    """What one bbs.LoadGeneralArticles(cursor, k, desc) call must return according to the property: the page that
+    starts at the entry the linear scan positions the cursor at; not-found (3 1) when the scan finds nothing in the
+    listing direction; 3 8 (no record) for a cursor on an empty board.  cur: None or (T, nm)."""
+    n = len(es)
+    if cur is None:
+        if n == 0:
+            return "0 0 0 -1 0"
+        start = n if desc else 1
+    else:
+        if n == 0:
+            return "3 8"
+        start = ref_find(es, cur[0], cur[1], desc)
+        if start is None:
+            return "3 1"
+    return "0 " + " ".join(str(x) for x in ref_page(es, start, k, desc))
+
+
+def cursor_class(es, cur, desc):
+    """class of a (T, nm) cursor with respect to the file as it is now"""
+    if cur is None:
+        return "none"
+    vs = [e for e in es if valid(e)]
+    if cur in vs:
+        return "present"
+    if not vs:
+        return "no-parsable-entry"
+    if cur[0] < vs[0][0]:
+        return "below-first"
+    if cur[0] > vs[-1][0]:
+        return "above-last"
+    return "absent"
+
+
+def parse_walk(o):
+    """'0 code pages nvis vis... trace...' -> (code, pages, visited, [[count, first, nT, nNm], ...])"""
+    t = [int(x) for x in o.split()]
+    code, pages, nvis = t[1], t[2], t[3]
+    vis = t[4:4 + nvis]
+    tr = t[4 + nvis:]
+    return code, pages, vis, [tr[i:i + 4] for i in range(0, len(tr), 4)]
+
+
 def patterns(n):
     """Every index file of n entries over {invalid, same time as the previous valid entry, later time}."""
     for pat in itertools.product("IEG", repeat=n):
@@ -305,10 +362,189 @@ def main():
     judge_walk(5, "bbs", lines, io, meta)
     c.sample({"op": "bbs.LoadGeneralArticles walk", "file": fmt_es(meta[-5][0]), "page_size": meta[-5][1], "desc": meta[-5][2], "impl": io[-5]})
 
+    # ---------------------------------------------------------------- bbs.LoadGeneralArticles with client-supplied cursors
+    # every cursor class (none, present, absent name at each time, each gap, below first, above last), both directions,
+    # page sizes 1..n+1: the page that comes back (count, first position, next cursor) against the linear scan
+    NCUR_BBS = 7 if thorough else 6
+    lines, meta = [], []
+    for pat, es in files:
+        n = len(es)
+        if n > NCUR_BBS:
+            continue
+        curs = [(None, "none")] + [((T, nm), cls) for (T, nm, cls) in cursors(es) if nm is not None]
+        times = sorted({e[0] for e in es if valid(e)})
+        curs += [(((times[0] if times else B) - 1, ABSENT), "below-first"), (((times[-1] if times else B) + 1, ABSENT), "above-last")]
+        ks = range(1, n + 2) if n <= 4 else (1, 2, n, n + 1)
+        for cur, cls in curs:
+            for k in ks:
+                for desc in (True, False):
+                    lines.append("7|%s|%s %d %d" % (entries_wire(es), "0 0 0" if cur is None else "1 %d %d" % cur, k, 1 if desc else 0))
+                    meta.append((es, cur, k, desc, cls))
+    io, mo = both(lines, "bbs.LoadGeneralArticles(client cursor)")
+    c.count(len(lines), "bbs-cursor")
+    crash_or_hang(lines, io, "bbs.LoadGeneralArticles")
+    # the Coq specification bbs_page_spec (extracted; what C06_bbs_page_eq_scan is stated against) and the reference here must agree
+    if model:
+        sl = ["9|" + l.split("|", 1)[1] for l in lines]
+        so = vf.run_model(model, sl)
+        for i, (es, cur, k, desc, cls) in enumerate(meta):
+            exp = ref_bbs_page(es, cur, k, desc)
+            if so[i].strip() != exp:
+                c.broken.append({"kind": "correspondence", "where": "bbs_page_spec vs reference page", "theorem": "bbs_page_spec (Coq) = linear-scan page (check)",
+                                 "examples": [{"case": sl[i], "model": so[i], "ref": exp}], "log": ""})
+                break
+    for l, o, (es, cur, k, desc, cls) in zip(lines, io, meta):
+        if o.split()[0] in ("1", "2"):
+            continue
+        exp = ref_bbs_page(es, cur, k, desc)
+        cls = cursor_class(es, cur, desc)
+        c.nontrivial(("bbscur", fmt_es(es), cur, k, desc))
+        if o.strip() != exp:
+            first = [e[0] for e in es if valid(e)]
+            if cur is not None and not desc and first and cur[0] < first[0]:
+                key = "find-asc-cursor-below-first"
+            elif exp.startswith("0") and exp.split()[3] == "-2" and o.split()[:3] == exp.split()[:3]:
+                key = "deleted-page-boundary"
+            else:
+                key = "bbs-cursor-%s-%s" % ("desc" if desc else "asc", cls)
+            c.violation(key, "bbs.LoadGeneralArticles(%s, cursor %s [%s], page size %d, %s) = %s; the linear scan gives %s  "
+                             "([status count first-position next-cursor]; 3 1 = not found: nothing to list in that direction)" % (
+                fmt_es(es), "none" if cur is None else "%d/%d" % (cur[0] - B, cur[1]), cls, k, "desc" if desc else "asc", o.strip(), exp),
+                {"cases": [l], "expected": exp, "got": o})
+    c.sample({"op": "bbs.LoadGeneralArticles(cursor)", "file": fmt_es(meta[-3][0]), "cursor": [meta[-3][1][0] - B, meta[-3][1][1]], "class": meta[-3][4],
+              "page_size": meta[-3][2], "desc": meta[-3][3], "impl": io[-3], "scan": ref_bbs_page(*meta[-3][:4])})
+    c.cov["exhaustive_parts"].append("bbs.LoadGeneralArticles with every client-supplied cursor class over all files of n <= %d entries" % NCUR_BBS)
+
+    # ---------------------------------------------------------------- walks during which entries are deleted between pages
+    def ideal_cursors(es, k, desc):
+        """positions (1-based) the next-cursor points at before page 1, 2, ... of the walk over the unchanged file"""
+        n = len(es)
+        order = list(range(n, 0, -1)) if desc else list(range(1, n + 1))
+        return [order[j] for j in range(k, n, k)]
+
+    def judge_stale_walk(lines, outs, meta):
+        """Direct predicates on what bbs.LoadGeneralArticles itself returned along the walk:
+        (1) it ends; (2) every page is the page the linear scan gives for the cursor the server handed out before and the
+        file as it is at that request - and the walk ends exactly when that scan has nothing (more) to list;
+        (3) no position is listed twice (except inside the run of entries sharing their creation time with a deleted entry:
+        there the scan by creation time cannot tell them apart) and every entry still parsable at the end was listed."""
+        for l, o, (es0, k, desc, dels) in zip(lines, outs, meta):
+            st = o.split()[0]
+            dtxt = ", ".join("entry %d deleted before page %d" % (pos + 1, pg + 1) for pg, pos in dels)
+            what = "bbs.LoadGeneralArticles walk (page size %d, %s) over %s, %s" % (k, "desc" if desc else "asc", fmt_es(es0), dtxt or "no deletion")
+            if st in ("1", "2"):
+                c.violation("bbs-stale-walk-%s" % ("crash" if st == "1" else "does-not-terminate"),
+                            "%s %s" % (what, "panics" if st == "1" else "does not end within 2n+6 pages (the listing restarts / cycles)"),
+                            {"cases": [l], "got": o})
+                continue
+            if st != "0":
+                c.violation("bbs-stale-walk-status", "%s: status %s" % (what, o), {"cases": [l], "got": o})
+                continue
+            code, pages, vis, tr = parse_walk(o)
+            c.nontrivial(("stale", fmt_es(es0), k, desc, tuple(dels)))
+            es = list(es0)
+            cur = None
+            bad = None
+            for pg in range(pages + 1):
+                for (dp, pos) in dels:
+                    if dp == pg and 0 <= pos < len(es):
+                        es[pos] = ("x", -1)
+                if pg > 0:
+                    nT, nNm = tr[pg - 1][2], tr[pg - 1][3]
+                    if nT == -1:
+                        exp_end = 0
+                    elif nT == -2:
+                        exp_end = 5
+                    else:
+                        exp_end = None
+                        cur = (nT, nNm)
+                    if exp_end is not None:
+                        if pg != pages or code != exp_end:
+                            bad = (pg, "after the last cursor (%d) the walk must end with code %d; it ended with code %d after %d pages" % (nT, exp_end, code, pages), None)
+                        break
+                exp = ref_bbs_page(es, cur, k, desc)
+                if pg == pages:
+                    got = "3 %d" % code
+                else:
+                    got = "0 " + " ".join(str(x) for x in tr[pg])
+                if got != exp:
+                    bad = (pg, "page %d (cursor %s, %s): got %s, the linear scan over the file at that moment gives %s" % (
+                        pg + 1, "none" if cur is None else "%d/%d" % (cur[0] - B, cur[1]), cursor_class(es, cur, desc), got, exp), cursor_class(es, cur, desc))
+                    break
+            if bad is not None:
+                first = [e[0] for e in es if valid(e)]
+                if cur is not None and not desc and first and cur[0] < first[0] and bad[2] is not None:
+                    key = "find-asc-cursor-below-first"
+                else:
+                    key = "bbs-stale-cursor-%s-%s" % ("desc" if desc else "asc", bad[2] or "end")
+                c.violation(key, "%s: %s" % (what, bad[1]), {"cases": [l], "expected": "page %d: %s" % (bad[0] + 1, bad[1]), "got": o})
+                for pg in range(bad[0] + 1, pages + 1):   # the file as it is at the end, for predicate (3)
+                    for (dp, pos) in dels:
+                        if dp == pg and 0 <= pos < len(es):
+                            es[pos] = ("x", -1)
+            # (3) on the visited positions
+            dtimes = {es0[pos][0] for (_, pos) in dels if 0 <= pos < len(es0) and valid(es0[pos])}
+            # positions inside the run of entries that carry the creation time of a deleted entry (unparsable ones in between included)
+            amb = set()
+            for t_ in dtimes:
+                run = [i + 1 for i, e in enumerate(es0) if valid(e) and e[0] == t_]
+                amb.update(range(run[0], run[-1] + 1))
+            seen = set()
+            rep = [p_ for p_ in vis if (p_ in seen or seen.add(p_)) and p_ not in amb]
+            if rep:
+                c.violation("bbs-stale-walk-revisit", "%s: positions %s are listed more than once (visited: %s)" % (what, sorted(set(rep)), vis),
+                            {"cases": [l], "expected": "every position at most once", "got": o})
+            elif code == 5:
+                if not (tr and tr[-1][2] == -2):
+                    c.violation("bbs-stale-walk-end", "%s: ended with the strconv error without an unparsable cursor" % what, {"cases": [l], "got": o})
+                # the known finding 'deleted-page-boundary' (reported by the static walks above): the listing stops on an unparsable boundary entry
+            else:
+                missing = [i + 1 for i, e in enumerate(es) if valid(e) and (i + 1) not in seen]
+                if missing:
+                    c.violation("bbs-stale-walk-skipped", "%s: entries at positions %s are still there and were never listed (visited: %s, end code %d)" % (what, missing, vis, code),
+                                {"cases": [l], "expected": "every remaining entry listed", "got": o})
+
+    def stale_line(es, k, desc, dels):
+        return "8|%s|%d %d|%s" % (entries_wire(es), k, 1 if desc else 0, " ".join("%d %d" % d for d in dels))
+
+    NDEL_ALL = 6 if thorough else 5     # every single deletion (any parsable entry, before any later page)
+    NDEL_BND = 7 if thorough else 6     # the entry the cursor points at (+ its neighbours in the listing direction)
+    lines, meta = [], []
+    for pat, es in files:
+        n = len(es)
+        if n == 0 or n > NDEL_BND:
+            continue
+        vpos = [i for i, e in enumerate(es) if valid(e)]
+        for k in range(1, n + 1):
+            for desc in (True, False):
+                bnd = ideal_cursors(es, k, desc)
+                scheds = set()
+                for pg, b in enumerate(bnd, start=1):
+                    if not valid(es[b - 1]):
+                        continue   # the static walk already ends there (deleted-page-boundary)
+                    if n <= NDEL_ALL:
+                        for pos in vpos:
+                            scheds.add(((pg, pos),))
+                    # the boundary entry, alone and together with 1.. of the parsable entries after it in the listing direction
+                    after = [p_ for p_ in (reversed(vpos) if desc else vpos) if (p_ < b - 1 if desc else p_ > b - 1)]
+                    for m in range(0, len(after) + 1):
+                        if m in (0, 1, len(after)):
+                            scheds.add(tuple([(pg, b - 1)] + [(pg, p_) for p_ in after[:m]]))
+                for d in sorted(scheds):
+                    lines.append(stale_line(es, k, desc, d))
+                    meta.append((es, k, desc, d))
+    io, mo = both(lines, "bbs.LoadGeneralArticles walk with deletions between pages")
+    c.count(len(lines), "walk-bbs-deletions")
+    judge_stale_walk(lines, io, meta)
+    c.sample({"op": "bbs.LoadGeneralArticles walk, entry deleted between pages", "file": fmt_es(meta[-1][0]), "page_size": meta[-1][1], "desc": meta[-1][2],
+              "deleted (page, position)": [list(d) for d in meta[-1][3]], "impl": io[-1]})
+    c.cov["exhaustive_parts"].append("bbs walks with the cursor's entry (and its neighbours in the listing direction) deleted before any page, files of n <= %d; every single deletion for n <= %d" % (NDEL_BND, NDEL_ALL))
+
     # ---------------------------------------------------------------- random large files
     nfiles = 60 if thorough else 10
     lines, meta = [], []
     wl, wm = [], []
+    sl_, sm_ = [], []
     for fi in range(nfiles):
         n = rng.choice([rng.randrange(8, 40), rng.randrange(40, 300), rng.randrange(300, 2001)])
         pinv = rng.choice([0.0, 0.05, 0.3, 0.8])
@@ -345,6 +581,29 @@ def main():
         for k in sorted({1 if n < 300 else 17, 20, n // 2 + 1, n, n + 1}):
             for desc in (True, False):
                 wl.append("4|%s|%d %d" % (entries_wire(es), k, 1 if desc else 0)); wm.append((es, k, desc))
+        # walks through bbs.LoadGeneralArticles during which the cursor's entry is deleted (alone, with its next
+        # neighbour, with everything after it in the listing direction - the cursor is then out of range)
+        if n <= (600 if thorough else 300):
+            vpos = [i for i, e in enumerate(es) if valid(e)]
+            for k in sorted({1 if n < 40 else 7, 20}):
+                for desc in (True, False):
+                    bnd = []
+                    for b in ideal_cursors(es, k, desc):
+                        if not valid(es[b - 1]):
+                            break
+                        bnd.append(b)
+                    if not bnd:
+                        continue
+                    picks = {len(bnd), rng.randrange(1, len(bnd) + 1)}
+                    for pg in sorted(picks):
+                        b = bnd[pg - 1]
+                        after = [p_ for p_ in (reversed(vpos) if desc else vpos) if (p_ < b - 1 if desc else p_ > b - 1)]
+                        for m in sorted({0, min(1, len(after)), len(after) if len(after) <= 25 else 2}):
+                            d = tuple([(pg, b - 1)] + [(pg, p_) for p_ in after[:m]])
+                            sl_.append(stale_line(es, k, desc, d)); sm_.append((es, k, desc, d))
+    io, mo = both(sl_, "bbs.LoadGeneralArticles walk with deletions (random files)")
+    c.count(len(sl_), "walk-bbs-deletions-random")
+    judge_stale_walk(sl_, io, sm_)
     io, mo = both(lines, "cmsys.FindRecordStartIdx(random files)")
     c.count(len(lines), "find-random")
     crash_or_hang(lines, io, "FindRecordStartIdx")
@@ -372,10 +631,12 @@ def main():
 
     c.finish(rule="files: complete enumeration of {unparsable, equal time, later time}^n for n <= %d (three kinds of unparsable entry) + %d PRNG(seed) files of 8..2000 entries; "
                   "cursors: every present (time,name), an absent name and a name-less cursor at every time, every gap, below first, above last; both directions; "
-                  "page sizes 1..n+1; a case is non-trivial if it is a distinct (file, cursor, direction) / (file, page size, direction) that returned" % (NMAX, nfiles),
+                  "page sizes 1..n+1; bbs.LoadGeneralArticles called with every cursor class (client-supplied cursors) on all files of n <= %d entries, and walked on its own cursors "
+                  "while the cursor's entry (alone / with its neighbours / with everything after it in the listing direction) or any single entry is deleted between pages; a case is non-trivial if it is a distinct (file, cursor, direction) / (file, page size, direction) that returned" % (NMAX, nfiles, NCUR_BBS),
              assumptions=["cursor time and cursor file name are consistent (every caller in ptt/bbs derives both from one file name; DeserializeArticleIdxStr enforces it)",
                           "creation times in [0, 2^31): Time4 subtraction is modelled with wrap32",
                           "file names within one index are unique (Stampfile creates them with O_EXCL)",
+                          "a deletion overwrites the index entry in place with a delete-marked one (cmsys.SubstituteRecord, as DeleteArticles does); the index is not compacted between pages",
                           "the index file is quiescent during a lookup; os file I/O, strconv.Atoi and encoding/binary are exercised, not verified",
                           "bbs-level cursor text round trip (Serialize/DeserializeArticleIdxStr via the article id of C13) is validated by the bbs walk correspondence, proved only in C13"])
 
